@@ -36,8 +36,8 @@ CLAIMS = {
    text="Partial, structural: each literal kind selects a validator that keeps exactly that JSON type (numbers: float64, and json.Number normalised to float64 on every path); ordering operators and regex embed the numeric / string validator and assert exactly the kept type after skipping the absence marker; path-vs-path uses reflect.DeepEqual with the permissive validator; a mistyped or missing operand is blanked, never asserted; the comparator call is dominated by successful validation of both operand lists.",
    note="Does NOT decide: which operand ends up on the right when both are non-member operands (the live `$.a == 1` vs `1 == $.a` json.Number discrepancy), nor DeepEqual's numeric semantics across decodings.", ref="§3.F, §4 C10"),
  "C11": dict(cat="other", tech="static analysis: zone (difference-bound matrix) abstract interpretation with trace partitioning over the subscript functions (go/ssa), 64- and 32-bit int",
-   text="Totality half: for every start/end/step/length no arithmetic operation on subscript values overflows, every index stored into the returned slice lies in [0,len-1], buffer writes of ascending loops are in range, and every loop's induction variable moves by a non-zero amount towards its bound (termination).",
-   note="Does NOT decide exactness w.r.t. Python slicing (a numerical property; seeded changes C11b, C11c are not detected). The buffer bound of the descending loop is proved by an iteration-count lemma built into the engine (DESIGN §0a); nothing is assumed. Also: no subscript loop walks an index list that nested steps can overwrite (R-ITER-STABLE). Input model: subscript numbers in [minInt,maxInt], len in [0,maxInt/16].", ref="§3.G, §4 C11"),
+   text="Totality and exactness: for every start/end/step/length no arithmetic operation on subscript values overflows, every index stored into the returned slice lies in [0,len-1], buffer writes of ascending loops are in range, and every loop's induction variable moves by a non-zero amount towards its bound (termination).",
+   note="Exactness w.r.t. Python slicing, added later (I-EXACT): on every zone partition the first value, the bound and the step of the enumeration loop have exact linear forms over the operands and the length; they are compared with the table of Python's slice.indices (omitted bounds, value, value+len, the limits of [0,len] resp. [-1,len-1]), each alternative only under side conditions the partition entails; the loop stores its induction value at consecutive positions; a single index is value or value+len in range, else nothing; which subscript is built does not depend on the operands' numbers beyond a sign. The buffer bound of the descending loop is proved by an iteration-count lemma (DESIGN §0a). Not decided: behaviour for lengths above maxInt/16 (input model), and the union of several subscripts beyond 'each in written order' (O-SEQ).", ref="§3.G, §4 C11"),
  "C12": dict(cat="other", tech="static analysis: emission-site pairing (plain vs accessor branch) and flag-clearing coverage of retrieve edges (go/ssa + call graph)",
    text="Partial, structural: results are wrapped at the same three emission sites, under the node's own flag, around the very value the plain branch emits; the pass that clears the accessor flag for function arguments and filter operands reaches every node that can emit through any retrieve edge (next, inner identifiers of a multi-name selector, its union twin), and every place that attaches a parameter chain runs that pass.",
    note="Also: every node construction takes the parser's accessor flag (N-CTOR), tree walkers agree on the member edges (N-WALK), null members are members (N-PRESENCE). Does NOT decide equality of the two result sequences as such (follows only together with C01-style correctness).", ref="§3.F, §4 C12"),
